@@ -51,7 +51,7 @@ func Run(k *report.Check) {
 	k.Explore("crash-after-each-storage-op/memory", mc.Config{}, seqParams{starts: starts, n: k.Pick(3, 4)}, seqBody)
 	k.Explore("crash-after-each-storage-op/local-directory", mc.Config{Workers: 4}, seqParams{starts: []uint64{0, 1, 2, 3, 61, 62, 63, 64, 4094, 1<<32 - 2}, n: 3, real: true}, seqBody)
 	k.Explore("restart/any-three-snapshot-files", mc.Config{}, nil, subsetBody)
-	bound := k.Pick(4, 5)
+	bound := k.Pick(3, 5)
 	k.ExploreSched(fmt.Sprintf("overlapping-publication/with-savepoint,delays<=%d", bound), mc.Config{Bound: bound, Deadline: k.Within(0.3)}, overlapParams{n: 2, savepoint: true}, overlapBody)
 	k.ExploreSched(fmt.Sprintf("overlapping-publication/delays<=%d", bound), mc.Config{Bound: bound}, overlapParams{n: 3}, overlapBody)
 }
